@@ -83,21 +83,17 @@ def noCycleB (h : Heap) (scionId recvId : Nat) : Bool :=
   | some s => !(idsK s).contains recvId
   | none => true
 
-/-- the side conditions of the property's quantifier: nodes are distinctly named (new names are fresh, also the name
-    `cut` gives the new Root), and a node is never grafted onto its own descendant -/
+/-- the side conditions of the property's quantifier: ordinary nodes are distinctly named (a new node's name is fresh;
+    Roots may be called anything, also what `cut` calls its new Root — Roots are never children), and a node is never
+    grafted onto its own descendant -/
 def legal (h : Heap) : TOp → Bool
-  | .mkRoot n => !(namesL h.comps).contains n
+  | .mkRoot _ => true
   | .mkNode n => !(namesL h.comps).contains n
   | .addMd _ _ _ => true
   | .add _ _ => true
   | .force p c => noCycleB h c p
   | .graft r s _ => noCycleB h s r
-  | .cut n _ =>
-    match h.find n with
-    | some x => match x.root.bind h.find with
-      | some r => !(namesL h.comps).contains (r.name ++ "_cut_" ++ x.name)
-      | none => true
-    | none => true
+  | .cut _ _ => true
 
 def legalSeq (h : Heap) : List TOp → Bool
   | [] => true
@@ -111,9 +107,7 @@ theorem noCycle_of_B (h : Heap) (a b : Nat) (hb : noCycleB h a b = true) : noCyc
 /-- C12: every operation keeps the invariant -/
 theorem C12_step (h : Heap) (op : TOp) (inv : Inv h) (hl : legal h op = true) : Inv (applyOp h op) := by
   cases op with
-  | mkRoot n =>
-    simp only [legal, Bool.not_eq_true', List.contains_eq_mem, decide_eq_false_iff_not] at hl
-    exact (mkRoot_inv h n inv hl).1
+  | mkRoot n => exact (mkRoot_inv h n inv).1
   | mkNode n =>
     simp only [legal, Bool.not_eq_true', List.contains_eq_mem, decide_eq_false_iff_not] at hl
     exact (mkNode_inv h n inv hl).1
@@ -121,11 +115,7 @@ theorem C12_step (h : Heap) (op : TOp) (inv : Inv h) (hl : legal h op = true) : 
   | add p c => exact (addToTree_inv h p c inv).1
   | force p c => exact (forceAdd_inv h p c inv (noCycle_of_B h c p hl)).1
   | graft r s o => exact (graftInto_inv h s r o inv (noCycle_of_B h s r hl)).1
-  | cut n o =>
-    refine (cut_inv h n o inv ?_).1
-    intro x r hx hr
-    simp only [legal, hx, hr, Bool.not_eq_true', List.contains_eq_mem, decide_eq_false_iff_not] at hl
-    exact hl
+  | cut n o => exact (cut_inv h n o inv).1
 
 /-- C12: after ANY finite sequence of add, force-add, graft, cut (and object creation / metadata assignment) the forest
     is well formed -/
@@ -145,23 +135,20 @@ theorem C12_history_from_empty (ops : List TOp) (hl : legalSeq {} ops = true) : 
     exactly the new Root -/
 theorem C12_nodes_conserved (h : Heap) (op : TOp) (inv : Inv h) (hl : legal h op = true) :
     (keysL (applyOp h op).comps).Perm (keysL h.comps) ∨
-    ∃ nm, (keysL (applyOp h op).comps).Perm (keysL h.comps ++ [(h.nextNode, nm)]) := by
+    ∃ nm r, (keysL (applyOp h op).comps).Perm (keysL h.comps ++ [(h.nextNode, nm, r)]) := by
   cases op with
-  | mkRoot n =>
-    simp only [legal, Bool.not_eq_true', List.contains_eq_mem, decide_eq_false_iff_not] at hl
-    exact Or.inr ⟨n, by rw [applyOp, (mkRoot_inv h n inv hl).2]⟩
+  | mkRoot n => exact Or.inr ⟨n, true, by rw [applyOp, (mkRoot_inv h n inv).2]⟩
   | mkNode n =>
     simp only [legal, Bool.not_eq_true', List.contains_eq_mem, decide_eq_false_iff_not] at hl
-    exact Or.inr ⟨n, by rw [applyOp, (mkNode_inv h n inv hl).2]⟩
+    exact Or.inr ⟨n, false, by rw [applyOp, (mkNode_inv h n inv hl).2]⟩
   | addMd i n c => exact Or.inl (by rw [applyOp, (addMd_inv h i n c inv).2])
   | add p c => exact Or.inl (addToTree_inv h p c inv).2
   | force p c => exact Or.inl (forceAdd_inv h p c inv (noCycle_of_B h c p hl)).2
   | graft r s o => exact Or.inl (graftInto_inv h s r o inv (noCycle_of_B h s r hl)).2
   | cut n o =>
-    refine (cut_inv h n o inv ?_).2
-    intro x r hx hr
-    simp only [legal, hx, hr, Bool.not_eq_true', List.contains_eq_mem, decide_eq_false_iff_not] at hl
-    exact hl
+    cases (cut_inv h n o inv).2 with
+    | inl h1 => exact Or.inl h1
+    | inr h1 => obtain ⟨nm, h2⟩ := h1; exact Or.inr ⟨nm, true, h2⟩
 
 /-! ### what the invariant says about every node -/
 
@@ -193,30 +180,38 @@ theorem walkKids_cons_skip (k : RNode) (ks : List RNode) (n : String) (rest : Li
   | nil => simp only [walkKids]; exact find?_name_skip k ks n h
   | cons r rs => simp only [walkKids, find?_name_skip k ks n h]
 
-theorem name_mem_namesL {ks : List RNode} {k : RNode} (hk : k ∈ ks) : k.name ∈ namesL ks :=
-  List.mem_map.mpr ⟨_, mem_keysL_of_mem hk (self_mem_keys k), rfl⟩
+theorem namesK_eq (t : RNode) : namesK t = (if t.isRoot then [] else [t.name]) ++ namesL t.kids := by
+  cases t with
+  | mk i n r ro tp m ks =>
+    simp only [namesK, namesL, namesOf, keys, RNode.isRoot, RNode.name, RNode.kids, List.filter_cons]
+    cases r <;> simp
+
+theorem name_mem_namesL {ks : List RNode} {k : RNode} (hk : k ∈ ks) (hr : k.isRoot = false) : k.name ∈ namesL ks := by
+  simp only [namesL, namesOf, List.mem_map, List.mem_filter]
+  exact ⟨(k.id, k.name, k.isRoot), ⟨mem_keysL_of_mem hk (self_mem_keys k), by simp [hr]⟩, rfl⟩
 
 mutual
 /-- every node found below a consistent branch sits at a position whose names, walked down the `_branch` dictionaries,
     lead to exactly that node, and the treepath it records is that path -/
 theorem pos_of_findIn (r : Option Nat) (id : Nat) : ∀ (t x : RNode) (path : String), consistent r path t = true →
-    ((keys t).map (·.2)).Nodup → t.id ≠ id → findIn id t = some x →
+    (namesL t.kids).Nodup → plainL t.kids = true → t.id ≠ id → findIn id t = some x →
     ∃ n0 rest, (∃ k ∈ t.kids, k.name = n0) ∧ walkKids t.kids (n0 :: rest) = some x ∧
       x.treepath = some (pathFrom path (n0 :: rest))
-  | .mk i n isR ro tp m ks, x, path, h, hn, hne, hf => by
+  | .mk i n isR ro tp m ks, x, path, h, hn, hpl, hne, hf => by
     simp only [consistent, Bool.and_eq_true] at h
     simp only [RNode.id] at hne
     simp only [findIn, if_neg hne] at hf
-    simp only [keys, List.map_cons, List.nodup_cons] at hn
-    exact pos_of_findInList r id ks x path h.2 hn.2 hf
+    exact pos_of_findInList r id ks x path h.2 hn hpl hf
 theorem pos_of_findInList (r : Option Nat) (id : Nat) : ∀ (ks : List RNode) (x : RNode) (path : String),
-    consistentKids r path ks = true → (namesL ks).Nodup → findInList id ks = some x →
+    consistentKids r path ks = true → (namesL ks).Nodup → plainL ks = true → findInList id ks = some x →
     ∃ n0 rest, (∃ k ∈ ks, k.name = n0) ∧ walkKids ks (n0 :: rest) = some x ∧ x.treepath = some (pathFrom path (n0 :: rest))
-  | [], _, _, _, _, hf => by simp [findInList] at hf
-  | k :: ks, x, path, h, hn, hf => by
+  | [], _, _, _, _, _, hf => by simp [findInList] at hf
+  | k :: ks, x, path, h, hn, hpl, hf => by
     simp only [consistentKids, Bool.and_eq_true] at h
     simp only [namesL_cons] at hn
     have hnd := List.nodup_append.mp hn
+    simp only [plainL, Bool.and_eq_true] at hpl
+    have hkr : k.isRoot = false := plain_isRoot k hpl.1
     simp only [findInList] at hf
     split at hf
     · rename_i y hy
@@ -233,23 +228,27 @@ theorem pos_of_findInList (r : Option Nat) (id : Nat) : ∀ (ks : List RNode) (x
             simp only [RNode.treepath, RNode.name, pathFrom, List.foldl_cons, List.foldl_nil]
             exact h.1.1.2
       · -- deeper, below this child
-        obtain ⟨n0, rest, ⟨k', hk', hk'n⟩, hw, htp⟩ := pos_of_findIn r id k x _ h.1 hnd.1 hk hy
+        have hkn : (namesL k.kids).Nodup := by
+          have := hnd.1
+          rw [namesK_eq] at this
+          exact (List.nodup_append.mp this).2.1
+        obtain ⟨n0, rest, ⟨k', hk', hk'n⟩, hw, htp⟩ := pos_of_findIn r id k x _ h.1 hkn (plain_kids k hpl.1) hk hy
         refine ⟨k.name, n0 :: rest, ⟨k, List.mem_cons_self, rfl⟩, ?_, ?_⟩
         · simp only [walkKids, find?_name_head k ks]
           exact hw
         · rw [htp]; simp [pathFrom]
-    · obtain ⟨n0, rest, ⟨k', hk', hk'n⟩, hw, htp⟩ := pos_of_findInList r id ks x path h.2 hnd.2.1 hf
+    · obtain ⟨n0, rest, ⟨k', hk', hk'n⟩, hw, htp⟩ := pos_of_findInList r id ks x path h.2 hnd.2.1 hpl.2 hf
       refine ⟨n0, rest, ⟨k', List.mem_cons_of_mem _ hk', hk'n⟩, ?_, htp⟩
       have hne : k.name ≠ n0 := by
         intro e
-        have h1 : k.name ∈ (keys k).map (·.2) := List.mem_map.mpr ⟨_, self_mem_keys k, rfl⟩
-        have h2 : k'.name ∈ namesL ks := name_mem_namesL hk'
+        have h1 : k.name ∈ namesK k := by rw [namesK_eq, hkr]; simp
+        have h2 : k'.name ∈ namesL ks := name_mem_namesL hk' (plain_isRoot k' (plainL_mem hpl.2 hk'))
         exact hnd.2.2 _ h1 _ h2 (e.trans hk'n.symm)
       rw [walkKids_cons_skip k ks n0 rest hne]
       exact hw
 end
 
-theorem nodup_names_of_mem {cs : List RNode} (hn : (namesL cs).Nodup) {c : RNode} (hc : c ∈ cs) : ((keys c).map (·.2)).Nodup := by
+theorem nodup_names_of_mem {cs : List RNode} (hn : (namesL cs).Nodup) {c : RNode} (hc : c ∈ cs) : (namesK c).Nodup := by
   induction cs with
   | nil => cases hc
   | cons k ks ih =>
@@ -273,7 +272,7 @@ theorem find_via_top {cs : List RNode} (hn : (idsL cs).Nodup) {c x : RNode} (id 
     | tail _ hc' =>
       have hmem : id ∈ idsL ks := by
         obtain ⟨h1, h2⟩ := findIn_some id c x hf
-        exact mem_idsL_of_mem hc' (List.mem_map.mpr ⟨(x.id, x.name), h2 _ (self_mem_keys x), h1⟩)
+        exact mem_idsL_of_mem hc' (List.mem_map.mpr ⟨(x.id, x.name, x.isRoot), h2 _ (self_mem_keys x), h1⟩)
       have : id ∉ idsK k := fun hk => hnd.2.2 _ hk _ hmem rfl
       rw [findIn_none_of_not_mem _ _ this]
       exact ih hnd.2.1 hc'
@@ -285,7 +284,11 @@ theorem C12_lookup_own_path (h : Heap) (inv : Inv h) (c x : RNode) (id : Nat) (h
     (hne : c.id ≠ id) (hf : findIn id c = some x) :
     ∃ ps, ps ≠ [] ∧ walkKids c.kids ps = some x ∧ x.treepath = some (pathFrom "" ps) ∧
       getFromTree h x.id true ps = .node x.id := by
-  obtain ⟨n0, rest, _, hw, htp⟩ := pos_of_findIn _ id c x "" (inv.ok.roots c hc hr) (nodup_names_of_mem inv.ok.names hc) hne hf
+  have hnk : (namesL c.kids).Nodup := by
+    have := nodup_names_of_mem inv.ok.names hc
+    rw [namesK_eq] at this
+    exact (List.nodup_append.mp this).2.1
+  obtain ⟨n0, rest, _, hw, htp⟩ := pos_of_findIn _ id c x "" (inv.ok.roots c hc hr) hnk (inv.ok.plainKids c hc) hne hf
   refine ⟨n0 :: rest, by simp, hw, htp, ?_⟩
   have hxid : x.id = id := (findIn_some id c x hf).1
   have hfx : h.find x.id = some x := by rw [hxid]; exact find_via_top inv.ok.ids id hc hf
@@ -302,6 +305,8 @@ def exHistory : List TOp :=
 
 example : legalSeq {} exHistory = true := by decide +kernel
 example : Inv (exHistory.foldl applyOp {}) := C12_history_from_empty exHistory (by decide +kernel)
+-- cutting the same Root twice makes two Roots of one name: harmless, and inside the theorem
+example : legalSeq {} [.mkRoot "r", .mkNode "a", .add 0 1, .cut 0 .yes, .mkNode "b", .add 0 3, .cut 0 .copy] = true := by decide +kernel
 -- …and the side condition matters: grafting a node under its own descendant is not legal
 example : legalSeq {} [.mkRoot "r", .mkNode "a", .add 0 1, .mkNode "b", .add 1 2, .graft 2 1 .yes] = false := by decide +kernel
 
